@@ -45,7 +45,7 @@ ALPHABET = [
     ("window:diff", 1), ("window:same", 0), ("window:invalid", 0), ("window:alias", 0),
     ("lag:diff", 1), ("lag:same", 0), ("lag:out", 1), ("lag:any", 0),
     ("ar_order:diff", 1), ("ar_order:same", 0), ("ar_order:neg", 0), ("ar_order:big", 1), ("ar_order:none", 0),
-    ("ar_order:zero", 0), ("ma_order:zero", 0), ("data:const", 0), ("data:zimag", 0), ("plot", 0),
+    ("ar_order:zero", 0), ("ma_order:zero", 0), ("data:const", 0), ("data:zimag", 0), ("plot", 0), ("mutate_source", 0),
     ("ma_order:diff", 1), ("ma_order:same", 0), ("ma_order:neg", 0), ("ma_order:none", 0),
     ("npscalar:ar_order", 0), ("npscalar:ma_order", 0), ("npscalar:lag", 0), ("npscalar:sampling", 0),
     ("npscalar:scale", 0), ("npscalar:NFFT", 0),
@@ -316,10 +316,18 @@ class Run(object):
             finally:
                 pylab.close("all")
             return None
+        if k == "mutate_source":
+            src = getattr(self, "last_source", None)
+            if isinstance(src, np.ndarray):
+                new = dec_data(op["value"])
+                if len(new) == len(src):
+                    src[...] = new.astype(src.dtype) if np.iscomplexobj(src) or not np.iscomplexobj(new) else new.real
+            return None
         if k == "set":
             v = op["value"]
             if op["attr"] == "data":
                 v = dec_data(v)
+                self.last_source = v if isinstance(v, np.ndarray) else None
             elif isinstance(v, dict) and "np" in v:
                 v = getattr(np, v["np"])(v["v"])      # numpy scalar (np.int64(4), np.float64(2.0), np.bool_(True))
             setattr(p, op["attr"], v)
@@ -397,8 +405,8 @@ class Run(object):
 
         if k == "reassign" and exc is None and not fired:
             self.reassigned.append(op["attr"])
-        elif k in ("str", "power", "conv", "plot") and exc is None and not fired:
-            pass                      # observations: keep the remembered psd
+        elif k in ("str", "power", "conv", "plot", "mutate_source") and exc is None and not fired:
+            pass                      # observations (or the caller touching its own buffer): keep the remembered psd
         elif k != "read":
             self.last_psd = None
             self.reassigned = []
@@ -661,6 +669,12 @@ def concretize(aname, rng, run):
         return None
     if head in ("read", "call", "run", "str", "power"):
         return {"op": head}
+    if head == "mutate_source":
+        # the caller re-uses the buffer it handed to `data` earlier (fills it with other numbers, in place)
+        src = getattr(run, "last_source", None)
+        if src is None:
+            return None
+        return {"op": "mutate_source", "value": enc_data(gen_signal(rng, len(src), bool(np.iscomplexobj(src))))}
     if head == "plot":
         return {"op": "plot", "norm": rng.random() < 0.5, "sides": rng.choice([None, None, "twosided", "centerdc", "onesided"])}
     if head == "conv":
@@ -1071,6 +1085,8 @@ def describe(cfg, ops):
             out.append("psd")
         elif k == "plot":
             out.append("plot(norm=%r, sides=%r)" % (o.get("norm"), o.get("sides")))
+        elif k == "mutate_source":
+            out.append("<caller overwrites the array it assigned to data, in place>")
         else:
             out.append(k + "()")
     head = "%s(%s[%d], %s) %s" % (cfg["cls"], "complex" if cfg["cplx"] else "real", len(cfg["data"]["v"]),
